@@ -46,6 +46,7 @@ type verifCmd struct {
 	ErrEvery   int      `json:"err_every,omitempty"`
 	FailWrite  int      `json:"fail_write,omitempty"` // pump: the output fails from this Write call on (0 = never)
 	URLs       int      `json:"urls,omitempty"`       // pump: number of distinct URL label values (default 4)
+	SignalAt   int      `json:"signal_at,omitempty"`  // pump: one interrupt is delivered after this many results were handed over (0 = none)
 }
 
 type verifDial struct {
@@ -210,6 +211,9 @@ func verifRun(c verifCmd) (a verifAns) {
 				select {
 				case res <- r:
 					taken.Add(1)
+					if c.SignalAt > 0 && i+1 == c.SignalAt {
+						sig <- os.Interrupt // the first Ctrl-C: stop attacking, keep collecting what is in flight
+					}
 				case <-quit: // the pump gave up (write error)
 					return
 				}
